@@ -48,6 +48,10 @@ static WAKES: AtomicU64 = AtomicU64::new(0);
 static POLLS: AtomicU64 = AtomicU64::new(0);
 static WAKES_AT_RACE_POLL_START: AtomicU64 = AtomicU64::new(u64::MAX);
 static HOWL_RETURNED: AtomicBool = AtomicBool::new(false);
+/// sessions scenarios with a late connection: the accept-loop task is held at the start of its next poll (point p12-) until the late
+/// connection sits in the listener's backlog, so that "a connection is ready at the very poll that should notice the interrupt" is a
+/// forced schedule, not luck
+static HOLD_P12: AtomicBool = AtomicBool::new(false);
 
 fn log(e: impl Into<String>) -> u64 {
     let s = SEQ.fetch_add(1, Ordering::SeqCst);
@@ -103,6 +107,14 @@ fn sched_callback(point: &'static str) {
     log(format!("pt:{point}"));
     let forced = ST.lock().unwrap().as_ref().map(|s| s.forced).unwrap_or(false);
     if !forced {
+        if point == "p12-" && HOLD_P12.load(Ordering::SeqCst) {
+            log("held_at:p12-");
+            let t = Instant::now();
+            while HOLD_P12.load(Ordering::SeqCst) && t.elapsed() < Duration::from_secs(90) {
+                std::thread::sleep(Duration::from_millis(1));
+            }
+            log("released_at:p12-");
+        }
         return;
     }
     match point {
@@ -381,20 +393,47 @@ pub fn child(args: &Args) {
             while LOG.lock().unwrap().iter().filter(|(_, e)| e.starts_with("handler_start:")).count() < sessions && t.elapsed() < Duration::from_secs(5) {
                 std::thread::sleep(Duration::from_millis(5));
             }
+            if late {
+                HOLD_P12.store(true, Ordering::SeqCst);
+            }
             log("SIGINT");
             unsafe { libc::kill(libc::getpid(), libc::SIGINT) };
-            // the loop must stop accepting: after the handler ran, new connections are refused or never served
-            std::thread::sleep(Duration::from_millis(150));
+            // the loop must stop accepting: after the handler ran, new connections are refused or never served. "After the handler ran" is
+            // read from the log (scheduling point s.end), not assumed after a pause: delivery of the signal to the ctrlc thread is the
+            // kernel's business (and ThreadSanitizer defers asynchronous signals to a thread's next intercepted call, possibly for ever)
+            let t = Instant::now();
+            let mut handler_ran = false;
+            while t.elapsed() < Duration::from_secs(if patient { 60 } else { 20 }) {
+                if LOG.lock().unwrap().iter().any(|(_, e)| e == "pt:s.end") {
+                    handler_ran = true;
+                    break;
+                }
+                std::thread::sleep(Duration::from_millis(5));
+            }
             let mut late_served = false;
-            if late {
-                if let Ok(mut c) = connect() {
-                    log("late_connect_ok");
-                    let _ = c.write_all(b"GET /fast HTTP/1.1\r\nHost: t\r\n\r\n");
-                    c.set_read_timeout(Some(Duration::from_millis(300))).ok();
+            if !handler_ran {
+                log("signal_handler_never_ran");
+                HOLD_P12.store(false, Ordering::SeqCst);
+            }
+            if late && handler_ran {
+                // the handler has finished (flag set, task woken); the woken poll is held at p12-. Two connections arrive now: they are
+                // in the backlog when the poll goes on, i.e. accept is ready at the poll that has to notice the interrupt.
+                let mut late_conns = vec![];
+                for _ in 0..2 {
+                    match connect() {
+                        Ok(mut c) => {
+                            log("late_connect_ok");
+                            let _ = c.write_all(b"GET /fast HTTP/1.1\r\nHost: t\r\n\r\n");
+                            late_conns.push(c);
+                        }
+                        Err(_) => { log("late_connect_refused"); }
+                    }
+                }
+                HOLD_P12.store(false, Ordering::SeqCst);
+                for c in late_conns.iter_mut() {
+                    c.set_read_timeout(Some(Duration::from_millis(1000))).ok();
                     let mut b = [0u8; 64];
                     if let Ok(n) = c.read(&mut b) { if n > 0 { late_served = true; log("late_served"); } }
-                } else {
-                    log("late_connect_refused");
                 }
             }
             let returned_early = HOWL_RETURNED.load(Ordering::SeqCst) && sessions > 0;
@@ -416,8 +455,8 @@ pub fn child(args: &Args) {
             while !HOWL_RETURNED.load(Ordering::SeqCst) && t.elapsed() < Duration::from_secs(if patient { 100 } else { 10 }) {
                 std::thread::sleep(Duration::from_millis(5));
             }
-            verdict = json!({"mode": "sessions", "sessions": sessions, "idle": idle, "order": order, "late_served": late_served, "returned_before_gates": returned_early,
-                "howl_returned": HOWL_RETURNED.load(Ordering::SeqCst), "task_polls": POLLS.load(Ordering::SeqCst), "wakes": WAKES.load(Ordering::SeqCst)});
+            verdict = if !handler_ran { json!({"inconclusive": "the signal handler never ran (sessions scenario)"}) } else { json!({"mode": "sessions", "sessions": sessions, "idle": idle, "order": order, "late_served": late_served, "returned_before_gates": returned_early,
+                "howl_returned": HOWL_RETURNED.load(Ordering::SeqCst), "task_polls": POLLS.load(Ordering::SeqCst), "wakes": WAKES.load(Ordering::SeqCst)}) };
         }
         let logv: Vec<Value> = LOG.lock().unwrap().iter().map(|(s, e)| json!([s, e])).collect();
         let doc = json!({"verdict": verdict, "log": logv});
@@ -495,7 +534,8 @@ pub fn run(args: &Args, rep: &mut Report) {
         rng.shuffle(&mut order);
         let idle = rng.below(3);
         let mut ex: Vec<(&'static str, String)> = vec![("sessions", n.to_string()), ("order", order.iter().map(|x| x.to_string()).collect::<Vec<_>>().join(",")), ("idle", idle.to_string())];
-        if rng.bool() { ex.push(("late", "1".into())) }
+        // scenario 0 is the witness of C18-X2 (connections ready at the poll that has to notice the interrupt)
+        if rng.bool() || s == 0 { ex.push(("late", "1".into())) }
         if rng.chance(1, 3) { ex.push(("boom", "1".into())) }
         let b = ex.iter().any(|(k, _)| *k == "boom");
         work.push((format!("sess:{s}:n{n}:idle{idle}{}", if b { ":boom" } else { "" }), ex));
@@ -574,6 +614,9 @@ fn judge(rep: &mut Report, idx: u64, name: &str, doc: &Value) {
         }
         Some("sessions") => {
             rep.count("session_scenarios");
+            if log.iter().any(|(_, e)| e == "held_at:p12-") && log.iter().any(|(_, e)| e == "late_connect_ok") {
+                rep.count("late_arrival_forced_at_the_interrupted_poll");
+            }
             if name.ends_with(":boom") { rep.count("scenarios_with_panicking_handler") }
             let n = v["sessions"].as_u64().unwrap_or(0);
             rep.count_n("in_flight_sessions", n);
